@@ -281,12 +281,10 @@ def rule_R5_labelled_for(text, log):
 # prelude functions (whose trusted contract is the std documentation).
 R6_TABLE = [
     (r'\bu16::from_be_bytes\(\[', 'vx_u16_from_be_bytes(['),
-    (r'\bu16::try_from\(', 'vx_u16_try_from('),
-    (r'\bu32::try_from\(', 'vx_u32_try_from('),
-    (r'\.map_err\(\|_\| EncodeError::InvalidLength\)', '.vx_map_err_invalid_length()'),
     (r'\.map_err\(\|\(\)\| DecodeError::Utf8Error\)', '.vx_map_err_utf8()'),
     (r'\.map_or\(0, Bytes::len\)', '.vx_map_or_0_len()'),
     (r'\(\*cb\)\(', 'cb.vx_call('),
+    (r'\|_\|', '|_vx0|'),
     (r'Box<dyn Fn\(([^()]*)\)>', r'VxBoxFn<(\1)>'),
     (r'\.map_or\(0, \|v\| 1 \+ v\.encoded_size\(\)\)', '.vx_map_or_0_1_plus_encoded_size()'),
 ]
@@ -595,6 +593,8 @@ def process_template(unit, tmpl_path, prelude_dir):
         d = st[3:].strip()
         if d.startswith('include '):
             p = os.path.join(prelude_dir, d[8:].strip())
+            if not os.path.exists(p):
+                p = os.path.join(os.path.dirname(tmpl_path), d[8:].strip())
             process_template(unit, p, prelude_dir)
             i += 1
         elif d.startswith('unit-props '):
